@@ -533,6 +533,21 @@ pub fn xpath_query_op(kind: &str, a: &Args) -> Option<Outcome> {
             };
             Some(Outcome { observed, expected, note: "expected = the same keys, strictly increasing".into() })
         }
+        // C05 (node tests): the count a node test must select on a fixed document, worked out by hand from XPath 1.0 2.3
+        "node_test" => {
+            let d = "<r x='1' y='2'>t<a/><!--c--><?p d?><b>u<c/></b><![CDATA[z]]></r>";
+            let (_, doc) = xml_dom::XmlDocument::from_raw(d).ok()?;
+            let table: [(&str, &str); 14] = [
+                ("count(/r/*)", "2"), ("count(/r/node())", "6"), ("count(/r/text())", "2"), ("count(/r/comment())", "1"),
+                ("count(/r/processing-instruction())", "1"), ("count(/r/processing-instruction('p'))", "1"),
+                ("count(/r/processing-instruction('q'))", "0"), ("count(/r/@*)", "2"), ("count(//*)", "4"), ("count(/r/b/*)", "1"),
+                ("count(/r/child::*)", "2"), ("count(/r/descendant::*)", "3"), ("count(/r/a/following-sibling::*)", "1"),
+                ("count(/r/b/preceding-sibling::*)", "1"),
+            ];
+            let (query, want) = table.iter().find(|t| t.0 == q.as_str()).copied()?;
+            let observed = guard(|| show_query(&doc, query, &mut Context::default()));
+            Some(Outcome { observed, expected: format!("Number({}.0 bits:{:#018x})", want, want.parse::<f64>().unwrap().to_bits()), note: d.to_string() })
+        }
         // C06: a value or an error, never a panic
         "no_panic" => {
             let r = guard(|| {
@@ -660,6 +675,13 @@ pub fn xpath_grid(rest: &[&str]) -> Vec<Args> {
     let bools = ["b:true", "b:false"];
     let mk = |pairs: &[(&str, &str)]| -> Args { pairs.iter().map(|(k, v)| (k.to_string(), v.to_string())).collect() };
     match rest {
+        ["query", "node_test"] => {
+            for q in ["count(/r/*)", "count(/r/node())", "count(/r/text())", "count(/r/comment())", "count(/r/processing-instruction())",
+                      "count(/r/processing-instruction('p'))", "count(/r/processing-instruction('q'))", "count(/r/@*)", "count(//*)", "count(/r/b/*)",
+                      "count(/r/child::*)", "count(/r/descendant::*)", "count(/r/a/following-sibling::*)", "count(/r/b/preceding-sibling::*)"] {
+                out.push(mk(&[("query", q)]));
+            }
+        }
         ["query", _] => {
             for d in QUERY_DOCS {
                 for q in QUERIES {
